@@ -55,13 +55,16 @@ Coefs(n) == << Tup([k \in 1..n |-> k]), Tup([k \in 1..n |-> ((k * k * 7 + 3 * k)
 
 (* an evaluation problem: knots t (built by the constructor from bk/spread when how = "bkpt", *)
 (* stored directly when how = "direct"), points P, the orders in which they are evaluated     *)
+(* kform: the form of the breakpoint array the object is built from (double or single precision  *)
+(* knots; the enumerated knots are exact in both); E: probes a hair beside the ends of the range  *)
+KForm(t, nord) == IF RepresentsAll("f4", t) /\ (nord + Len(t)) % 2 = 0 THEN "f4" ELSE "f8"
 EvalCase(fam, how, nord, bk, spread, t, P, orders) ==
   [kind |-> "eval", fam |-> fam, how |-> how, nord |-> nord, bk |-> bk, spread |-> spread, t |-> t,
-   P |-> P, orders |-> orders, cs |-> Coefs(Len(t) - nord)]
-EvalExp(cc) == [knots |-> cc.t, pts |-> PointsExp(cc.t, cc.nord, cc.cs, cc.P)]
+   P |-> P, orders |-> orders, cs |-> Coefs(Len(t) - nord), kform |-> KForm(t, nord), E |-> EndProbes(t, nord)]
+EvalExp(cc) == [knots |-> cc.t, pts |-> PointsExp(cc.t, cc.nord, cc.cs, cc.P), ends |-> EndMask(cc.t, cc.nord)]
 
 Root == [kind |-> "root"]
-NoExp == [knots |-> <<>>, pts |-> <<>>]
+NoExp == [knots |-> <<>>, pts |-> <<>>, ends |-> <<>>]
 
 (* ---- family "eval": strictly increasing integer breakpoints, padded by the constructor ---- *)
 BkSets == {S \in SUBSET (0..BkMax) : Cardinality(S) \in 2..4}
@@ -269,9 +272,14 @@ C08_ProcedureEqualsDefinition == IsEval =>
      ProcedureEqualsDefinition(exp.knots, c.nord, PtsOf(c.P, c.orders[o].idx))
 C08_MaskExactlyOutside == IsEval =>
   /\ MaskExactlyOutside(exp.knots, c.nord, c.P)
+  /\ MaskExactlyOutside(exp.knots, c.nord, c.E)
+  /\ exp.ends = Tup([a \in 1..Len(c.E) |-> ~(QLt(c.E[a], Lo(exp.knots, c.nord)) \/ QLt(Hi(exp.knots, c.nord), c.E[a]))])
+  /\ (QLt(Lo(exp.knots, c.nord), Hi(exp.knots, c.nord)) /\ QLt(Small, QSub(Hi(exp.knots, c.nord), Lo(exp.knots, c.nord))))
+        => exp.ends = <<FALSE, TRUE, TRUE, TRUE, TRUE, FALSE, FALSE, TRUE, TRUE, FALSE>>
   /\ \A p \in Pts : exp.pts[p].inr = MaskOf(exp.knots, c.nord, c.P[p])
 (* every array is handed over in a form that carries its values exactly *)
 C08_FormsRepresent ==
+  /\ IsEval => RepresentsAll(c.kform, c.t)
   /\ IsEval => \A o \in 1..Len(c.orders) :
         /\ c.orders[o].form \in Forms /\ RepresentsAll(c.orders[o].form, PtsOf(c.P, c.orders[o].idx))
         /\ c.orders[o].single = SinglePrecision(c.orders[o].form)
